@@ -8,7 +8,7 @@ for d in sorted(glob.glob('/verif/seeded/*')):
     fe = m.get('first_evaluation') or {}
     caught_first = fe.get('exit') == 1
     later = m.get('after_strengthening')
-    if caught_first:
+    if caught_first and not (later and later.startswith('NOT a first-attempt')):
         res = 'caught by `./check %s quick`' % m['property']
         cls = (fe.get('first_violation') or '')
         import re
